@@ -301,7 +301,7 @@ func backendFor(r *rng.R) string {
 
 // persistRun: ordinary persistence (and GC when gc is set).
 func persistRun(t *testing.T, run *ev.Run, idx, nblocks int, gc bool) {
-	h := vchain.BuildHistory(t, vchain.HistoryCfg{Idx: idx, Blocks: nblocks})
+	h := vchain.BuildHistory(t, vchain.HistoryCfg{Idx: idx, Blocks: nblocks, Echidna: idx%2 == 1})
 	defer h.P.Close()
 	if h.P.Rejected != nil {
 		run.Violation("producer-rejected-own-block", fmt.Sprint("run", idx), h.P.Rejected.Error(), nil)
@@ -356,7 +356,7 @@ func persistRun(t *testing.T, run *ev.Run, idx, nblocks int, gc bool) {
 // added (as on a real node), so a batch can be cut at any point of block
 // processing; every prefix must still be a consistent, resumable state.
 func concurrentRun(t *testing.T, run *ev.Run, idx, nblocks int) {
-	h := vchain.BuildHistory(t, vchain.HistoryCfg{Idx: idx, Blocks: nblocks})
+	h := vchain.BuildHistory(t, vchain.HistoryCfg{Idx: idx, Blocks: nblocks, Echidna: idx%2 == 1})
 	defer h.P.Close()
 	if h.P.Rejected != nil {
 		run.Violation("producer-rejected-own-block", fmt.Sprint("run", idx), h.P.Rejected.Error(), nil)
@@ -438,7 +438,7 @@ func head(s []string, n int) []string {
 
 // resetRun: Blockchain.Reset(target) interrupted after every batch.
 func resetRun(t *testing.T, run *ev.Run, idx, nblocks int) {
-	h := vchain.BuildHistory(t, vchain.HistoryCfg{Idx: idx, Blocks: nblocks})
+	h := vchain.BuildHistory(t, vchain.HistoryCfg{Idx: idx, Blocks: nblocks, Echidna: idx%2 == 1})
 	defer h.P.Close()
 	if h.P.Rejected != nil {
 		run.Violation("producer-rejected-own-block", fmt.Sprint("run", idx), h.P.Rejected.Error(), nil)
